@@ -194,6 +194,32 @@ LayoutOK(npgs, ngrf, nbsimu) ==
 LayoutStates == {[k |-> "layout", npgs |-> np, ngrf |-> g, nbsimu |-> n] :
                    np \in {1, 2}, g \in {<<1, 1>>, <<2, 1>>, <<1, 2>>, <<2, 2>>}, n \in 1..3}
 
+(* multivariate conditional turning bands: the simulated error (non-conditional simulation minus *)
+(* datum) of (simulation isimu, variable ivar) is written by CalcSimuTurningBands::_difference   *)
+(* and read back by KrigingSystem::_simulateCalcul in the column Db::getSimRank of the input Db  *)
+SimRank(isimu, ivar, icase, nbsimu, nvar) == isimu + nbsimu * (ivar + nvar * icase)
+TBErrWrite(isimu, ivar, nbsimu, nvar) == SimRank(isimu, ivar, 0, nbsimu, nvar)    \* _difference: (.., icase, nbsimu, nvar)
+TBErrRead(isimu, jvar, nbsimu, nvar)  == SimRank(isimu, jvar, 0, nbsimu, nvar)    \* _simulateCalcul: (.., _rankPGS, _nbsimu, _nvar)
+TBColsOK(nvar, nbsimu) ==
+  \A i1, i2 \in 0..(nbsimu - 1) : \A v1, v2 \in 0..(nvar - 1) :
+     /\ TBErrRead(i1, v1, nbsimu, nvar) = TBErrWrite(i1, v1, nbsimu, nvar)
+     /\ (TBErrWrite(i1, v1, nbsimu, nvar) = TBErrWrite(i2, v2, nbsimu, nvar)) => (i1 = i2 /\ v1 = v2)
+TBColStates == {[k |-> "tbcols", nvar |-> nv, nbsimu |-> n] : nv \in {1, 2}, n \in 1..3}
+(* THE LAW OF CONDITIONING: the conditional simulation is linear in the data.  One target, one      *)
+(* datum location carrying nvar variables, kriging weights w[jv] of the variable simulated; the     *)
+(* columns hold err[c] = nc[c] - z[variable of c]; cond(r) = T - sum_jv w[jv] * err[read(r, jv)].   *)
+(* Conditioning by z + d instead of z moves every simulation by exactly sum_jv w[jv] * d[jv] = the  *)
+(* kriging estimate of d (for every rank; for every target, not only at the data).                  *)
+LinStates ==
+  UNION {{[k |-> "lin", nbsimu |-> n, r |-> r, nc |-> f, z |-> z, d |-> d, w |-> w] :
+            r \in 0..(n - 1), f \in [0..(2 * n - 1) -> {0, 1}], z \in {<<0, 1>>, <<1, 0>>}, d \in {<<2, 0>>, <<0, 2>>, <<2, 4>>}, w \in {<<1, 3>>, <<3, 0>>}}
+         : n \in 1..3}
+VarOfCol(c, nbsimu) == c \div nbsimu
+(* (z, d, w are pairs indexed 1..2 = variable 0..1) *)
+LinCond(s, zz) == 0 - ( s.w[1] * (s.nc[TBErrRead(s.r, 0, s.nbsimu, 2)] - zz[VarOfCol(TBErrRead(s.r, 0, s.nbsimu, 2), s.nbsimu) + 1])
+                      + s.w[2] * (s.nc[TBErrRead(s.r, 1, s.nbsimu, 2)] - zz[VarOfCol(TBErrRead(s.r, 1, s.nbsimu, 2), s.nbsimu) + 1]) )
+LinLaw(s) == LinCond(s, <<s.z[1] + s.d[1], s.z[2] + s.d[2]>>) - LinCond(s, s.z) = s.w[1] * s.d[1] + s.w[2] * s.d[2]
+
 (* ======================================================================= (d) *)
 (* lithotype rules: S splits on the first Gaussian function, T on the second; the first     *)
 (* child is the side below the threshold.  With proportions that make every split half/half *)
@@ -259,6 +285,14 @@ TBCases ==
 NearCases ==
   {[k |-> "case", sim |-> "simtub-near", model |-> "gau", layout |-> "grid", dset |-> d, nbsimu |-> n, seed |-> s] :
      d \in {"D4"}, n \in {MaxNbSimu}, s \in Seeds}
+(* multivariate conditional cases: nvar x nbsimu (incl. nbsimu # nvar), data exactly on the nodes   *)
+(* or 2e-4 mesh off them; each case is run with the data Z and Z + D, and D is kriged              *)
+MvZ == << <<1, 1, 5, -8>>, <<3, 1, -12, 4>>, <<2, 3, 20, 10>>, <<0, 4, 3, -15>> >>
+MvD == << <<1, 1, 10, -20>>, <<3, 1, -5, 15>>, <<2, 3, 0, 7>>, <<0, 4, 12, 3>> >>
+MvSum == [i \in 1..Len(MvZ) |-> <<MvZ[i][1], MvZ[i][2], MvZ[i][3] + MvD[i][3], MvZ[i][4] + MvD[i][4]>>]
+MvCases ==
+  {[k |-> "case", sim |-> "simtub-mv", nvar |-> nv, nbsimu |-> n, place |-> pl, seed |-> s] :
+     nv \in {1, 2}, n \in 1..3, pl \in {"exact", "near"}, s \in Seeds}
 RankCases ==
   {[k |-> "case", sim |-> sm, model |-> "sph", layout |-> "grid", dset |-> "D4", nbsimu |-> n, seed |-> s] :
      sm \in {"simfft", "spde", "spdec", "simtub-nc"}, n \in {2, MaxNbSimu}, s \in Seeds}
@@ -332,6 +366,9 @@ Init ==
   \/ ("gibbs" \in Parts \/ "gibbs-ascoded" \in Parts) /\ st \in GibbsInit
   \/ "cond" \in Parts /\ st \in CondStates
   \/ "layout" \in Parts /\ st \in LayoutStates
+  \/ "layout" \in Parts /\ st \in TBColStates
+  \/ "cond" \in Parts /\ st \in LinStates
+  \/ "cases" \in Parts /\ st \in MvCases
   \/ "rule" \in Parts /\ st \in RuleStates
   \/ "cases" \in Parts /\ st \in TBCases
   \/ "cases" \in Parts /\ st \in NearCases
@@ -346,7 +383,9 @@ Spec == Init /\ [][Next]_st
 Inv_Tgb    == st.k = "tgb" => /\ ZonesPartition(st.binf, st.bsup) /\ NoMixedSigns(st.binf, st.bsup)
                               /\ (TgbKind(st.binf, st.bsup) # "swapped" => TgbWithin(st.binf, st.bsup))
 Inv_Gibbs  == st.k = "gibbs" => GibbsInBounds(st)        \* intended decay and (since 65d897251) the decay as coded
-Inv_Cond   == (st.k = "cond" /\ st.rmap = IdMap(st.R)) => CondExact(st)
+Inv_Cond   == /\ (st.k = "cond" /\ st.rmap = IdMap(st.R)) => CondExact(st)
+              /\ st.k = "lin" => LinLaw(st)
+              /\ st.k = "tbcols" => TBColsOK(st.nvar, st.nbsimu)
 Inv_Rule   == st.k = "rule" => RuleConsistent(st.name) /\ PropFieldOK(st.name)
 (* every wrong rank map is observable: some field/data make the datum not reproduced *)
 CondSensitive == \A R \in {2} : \A m \in [1..R -> 1..R] : m # IdMap(R) =>
